@@ -12,6 +12,11 @@
 //!               (enc: written by the real writer `w` to `encname`, bytes copied to `name`)
 //!         out = [tag, first 16 bytes of the file, read outcome, reference plain parse]
 //!   (tag = the read outcome's tag again, first so that the evidence histogram shows it)
+//!   "proc" in = [steps], run in a FRESHLY SPAWNED child process (the codec registry is
+//!         process-wide state): step = ["reg", k, [ext..], magic|null, key] (register_codec of a
+//!         custom codec: writes its magic, then every byte XOR key; its reader checks the magic)
+//!         | ["rt", w, r, name, records, shards] | ["raw", r, name, origin, hdr]
+//!         out = ["proc", [step output..]] | ["abort"]
 //!   read outcome = ["ok", records] | ["err"] | ["panic"];  records = [[k, v], ...]
 //! Entry-point numbering = constructor order of writer_ep / reader_ep in IO/Compression.v.
 use ibv::{Emitter, SplitMix64, Tier, drive};
@@ -19,6 +24,8 @@ use ironbeam::io::cloud::readers::{
     read_cloud_jsonl_glob, read_cloud_jsonl_vec, write_cloud_jsonl_vec,
 };
 use ironbeam::io::cloud::{FakeObjectIO, ObjectIO};
+use ironbeam::io::compression::{CompressionCodec, register_codec};
+use std::io::{Read, Write};
 use ironbeam::io::csv::{build_csv_shards, read_csv_range};
 use ironbeam::io::jsonl::build_jsonl_shards;
 use ironbeam::{
@@ -455,9 +462,10 @@ fn run(kind: &str, input: &Value) -> Value {
                 }
                 _ => return json!(["invalid"]),
             };
-            // compressed bytes are not records in any plain reading
+            // compressed bytes (outside the reference parser's subset) are not records in any
+            // plain reading; bytes the writer stored plain are parsed like literal content
             let reference = if origin[0] == "enc" {
-                json!(["err"])
+                ref_parse(r, hdr, &content).unwrap_or(json!(["err"]))
             } else if let Some(v) = ref_parse(r, hdr, &content) {
                 v
             } else {
@@ -477,7 +485,170 @@ fn run(kind: &str, input: &Value) -> Value {
                 json!([ro[0].clone(), head(&content), ro, reference])
             }
         }
+        "proc" => {
+            // the registry must stay untouched in THIS process: never register here
+            let Some(steps) = input[0].as_array() else {
+                return json!(["invalid"]);
+            };
+            for st in steps {
+                let Some(a) = st.as_array() else {
+                    return json!(["invalid"]);
+                };
+                let ok = match st[0].as_str() {
+                    Some("reg") => {
+                        a.len() == 5
+                            && st[1].is_u64()
+                            && st[4].is_u64()
+                            && (st[3].is_null() || st[3]["bytes"].is_array())
+                            && st[2].as_array().is_some_and(|e| {
+                                e.iter().all(|x| x.as_str().is_some_and(|t| !t.is_empty()))
+                            })
+                    }
+                    Some("rt") => a.len() == 6,
+                    Some("raw") => a.len() == 5,
+                    _ => false,
+                };
+                if !ok {
+                    return json!(["invalid"]);
+                }
+            }
+            let out = run_proc(&input[0]);
+            // a step the child rejected makes the whole script invalid (only when shrinking)
+            if out[1].as_array().is_some_and(|a| a.iter().any(|o| *o == json!(["invalid"]))) {
+                return json!(["invalid"]);
+            }
+            out
+        }
         _ => json!(["bad-kind"]),
+    }
+}
+
+// ---------- custom codecs (registered only inside child processes) ----------
+struct DynCodec {
+    name: &'static str,
+    exts: Vec<&'static str>,
+    magic: Option<&'static [u8]>,
+    key: u8,
+}
+struct XorReader {
+    inner: Box<dyn Read>,
+    key: u8,
+}
+impl Read for XorReader {
+    fn read(&mut self, buf: &mut [u8]) -> std::io::Result<usize> {
+        let n = self.inner.read(buf)?;
+        for b in &mut buf[..n] {
+            *b ^= self.key;
+        }
+        Ok(n)
+    }
+}
+struct XorWriter {
+    inner: Box<dyn Write>,
+    key: u8,
+}
+impl Write for XorWriter {
+    fn write(&mut self, buf: &[u8]) -> std::io::Result<usize> {
+        let t: Vec<u8> = buf.iter().map(|b| b ^ self.key).collect();
+        self.inner.write_all(&t)?;
+        Ok(buf.len())
+    }
+    fn flush(&mut self) -> std::io::Result<()> {
+        self.inner.flush()
+    }
+}
+impl CompressionCodec for DynCodec {
+    fn name(&self) -> &str {
+        self.name
+    }
+    fn extensions(&self) -> &[&str] {
+        &self.exts
+    }
+    fn magic_bytes(&self) -> Option<&[u8]> {
+        self.magic
+    }
+    fn wrap_reader_dyn(&self, mut reader: Box<dyn Read>) -> std::io::Result<Box<dyn Read>> {
+        if let Some(m) = self.magic {
+            let mut h = vec![0u8; m.len()];
+            reader.read_exact(&mut h)?;
+            if h != m {
+                return Err(std::io::Error::new(std::io::ErrorKind::InvalidData, "bad magic"));
+            }
+        }
+        Ok(Box::new(XorReader { inner: reader, key: self.key }))
+    }
+    fn wrap_writer_dyn(&self, mut writer: Box<dyn Write>) -> std::io::Result<Box<dyn Write>> {
+        if let Some(m) = self.magic {
+            writer.write_all(m)?;
+        }
+        Ok(Box::new(XorWriter { inner: writer, key: self.key }))
+    }
+}
+
+fn bytes_of(v: &Value) -> Vec<u8> {
+    v["bytes"].as_array().expect("bytes").iter().map(|b| b.as_u64().unwrap() as u8).collect()
+}
+
+/// one step of a "proc" script, executed in the child
+fn exec_step(step: &Value) -> Value {
+    let tag = step[0].as_str().unwrap_or("");
+    let args = Value::Array(step.as_array().map(|a| a[1..].to_vec()).unwrap_or_default());
+    match tag {
+        "reg" => {
+            let exts: Vec<&'static str> = args[1]
+                .as_array()
+                .expect("exts")
+                .iter()
+                .map(|e| &*Box::leak(e.as_str().expect("ext").to_string().into_boxed_str()))
+                .collect();
+            let magic: Option<&'static [u8]> =
+                if args[2].is_null() { None } else { Some(&*Box::leak(bytes_of(&args[2]).into_boxed_slice())) };
+            let key = args[3].as_u64().expect("key") as u8;
+            register_codec(std::sync::Arc::new(DynCodec { name: "custom", exts, magic, key }));
+            json!(["reg"])
+        }
+        "rt" | "raw" => ibv::run_caught(&run, tag, &args),
+        _ => json!(["bad-step"]),
+    }
+}
+
+fn child_main() {
+    std::panic::set_hook(Box::new(|_| {}));
+    let mut inp = String::new();
+    std::io::stdin().read_to_string(&mut inp).expect("stdin");
+    let steps: Value = serde_json::from_str(&inp).expect("script");
+    let _ = std::fs::create_dir_all(scratch_root());
+    let outs: Vec<Value> = steps.as_array().expect("steps").iter().map(exec_step).collect();
+    let _ = std::fs::remove_dir_all(scratch_root());
+    println!("{}", Value::Array(outs));
+}
+
+/// run a script in a freshly spawned process (this binary with `--child`)
+fn run_proc(steps: &Value) -> Value {
+    use std::process::{Command, Stdio};
+    let exe = std::env::current_exe().expect("current_exe");
+    let Ok(mut ch) = Command::new(exe)
+        .arg("--child")
+        .stdin(Stdio::piped())
+        .stdout(Stdio::piped())
+        .stderr(Stdio::null())
+        .spawn()
+    else {
+        return json!(["abort"]);
+    };
+    {
+        let mut si = ch.stdin.take().expect("child stdin");
+        let _ = si.write_all(steps.to_string().as_bytes());
+    }
+    let Ok(out) = ch.wait_with_output() else {
+        return json!(["abort"]);
+    };
+    if !out.status.success() {
+        return json!(["abort"]);
+    }
+    match serde_json::from_slice::<Value>(&out.stdout) {
+        Ok(v) if v.is_array() => json!(["proc", v]),
+        _ => json!(["abort"]),
     }
 }
 
@@ -716,6 +887,88 @@ fn generate(seed: u64, tier: Tier, em: &mut Emitter) {
         emit_rt(em, W_PARQUET_VEC, R_PARQUET_VEC, name, &body, None, false, &["parquet"]);
     }
 
+    // 3b. the codec registry is process-wide state: scripts run in freshly spawned processes.
+    //     custom codecs: (k, extensions, magic, xor key)
+    let cat = |k: usize| -> Value {
+        match k {
+            0 => json!(["reg", 0, [".myz"], {"bytes": b"MYZ1"}, 0x55]),
+            1 => json!(["reg", 1, [".my2", ".myzip"], {"bytes": b"MY2"}, 0x2a]),
+            2 => json!(["reg", 2, [".nmz"], null, 0x55]),
+            // extension "z": every "...gz" / "...xz" name also ends with it; magic 1f = first
+            // byte of the gzip signature
+            3 => json!(["reg", 3, ["z"], {"bytes": [0x1f]}, 0x33]),
+            // extension ".g" = prefix of ".gz"; magic = gzip signature + one byte
+            4 => json!(["reg", 4, [".g"], {"bytes": [0x1f, 0x8b, 0x08]}, 0x11]),
+            // a built-in extension is a suffix of / identical to its extensions; magic "BZ"
+            5 => json!(["reg", 5, [".my.gz", ".gz"], {"bytes": b"BZ"}, 0x44]),
+            // an upper-case extension can never match the lower-cased path
+            _ => json!(["reg", 6, [".MYU"], {"bytes": b"MYU"}, 0x21]),
+        }
+    };
+    let quick_pairs: Vec<(i64, i64)> = vec![
+        (W_JSONL_VEC, R_JSONL_VEC),
+        (W_JSONL_PAR, R_JSONL_STREAM_SEQ),
+        (W_CSV_VEC, R_CSV_VEC),
+        (W_CSV_PAR, R_CSV_RANGE),
+        (W_PC_CSV, R_PC_CSV_GLOB),
+        (W_CLOUD_JSONL, R_CLOUD_JSONL),
+    ];
+    let proc_pairs: Vec<(i64, i64)> = if thorough {
+        all_pairs.iter().copied().filter(|&(w, _)| wfmt(w) != Fmt::Parquet).collect()
+    } else {
+        quick_pairs
+    };
+    let bnames = ["b.gz", "b.ZST", "b.bz2", "b.xz", "b.GZip", "b.zstd", "b.BZIP2"];
+    let rs = recs_json(&small);
+    for (pi, &(w, r)) in proc_pairs.iter().enumerate() {
+        let rt = |name: &str| json!(["rt", w, r, name, rs, 2]);
+        let enc = |name: &str, encname: &str| {
+            json!(["raw", r, name, ["enc", w, encname, rs, 2], false])
+        };
+        let bn = |i: usize| bnames[(pi + i) % bnames.len()];
+        let mut scripts: Vec<(Vec<Value>, &str)> = Vec::new();
+        // baseline: a fresh process that registers nothing
+        scripts.push((vec![rt(bn(0))], "no-registration"));
+        scripts.push((vec![enc("n.dat", bn(1))], "no-registration"));
+        // register, THEN the first I/O of the process uses a built-in extension
+        for (j, k) in [0usize, 3, 5, 2].into_iter().enumerate() {
+            scripts.push((vec![cat(k), rt(bn(j))], "register-then-builtin-io"));
+        }
+        // register, THEN the first read is of signature-carrying content under a neutral name
+        for (j, k) in [0usize, 3, 4, 5].into_iter().enumerate() {
+            scripts.push((vec![cat(k), enc("n.dat", bn(j + 2))], "register-then-neutral-read"));
+        }
+        // built-in I/O, register, built-in I/O again, then the custom codec itself
+        scripts.push((
+            vec![rt(bn(2)), cat(0), rt(bn(3)), rt("c.myz"), enc("n", bn(4))],
+            "io-register-io",
+        ));
+        scripts.push((
+            vec![enc("n.dat", bn(5)), cat(0), enc("n.dat", bn(6)), enc("n.dat", "c.myz"),
+                 enc("n.gz", "c.myz"), enc("n.myz", bn(0))],
+            "read-register-read",
+        ));
+        // register twice (the same codec, two different codecs)
+        scripts.push((vec![cat(0), cat(0), rt(bn(1)), rt("c.MYZ")], "register-twice"));
+        scripts.push((
+            vec![cat(0), cat(1), rt(bn(2)), rt("c.myz"), rt("c.my2"), rt("c.MyZip"),
+                 enc("n.dat", "c.my2")],
+            "register-two",
+        ));
+        // the custom codec's own round trip, by extension and by magic
+        for (k, name) in [(0usize, "c.myz"), (2, "c.nmz"), (3, "c.abz"), (4, "c.g"), (5, "c.my.gz"),
+                          (5, "c.gz"), (6, "c.myu"), (3, "c.xz"), (1, "c.jsonl.MYZIP")]
+        {
+            scripts.push((vec![cat(k), rt(name), enc("n.dat", name)], "custom-roundtrip"));
+        }
+        // registered but not involved: neutral names, plain content
+        scripts.push((vec![cat(0), cat(3), rt("p.dat"), rt("p.gzz")], "register-then-neutral-io"));
+        for (steps, tag) in scripts {
+            let nt = steps.iter().any(|s| s[0] == "reg");
+            em.case("proc", json!([steps]), nt, &["proc", tag]);
+        }
+    }
+
     // 4. seeded random: names built from extension fragments with random edits; random pairs
     let mut rng = SplitMix64::new(seed ^ 0xC10);
     let n = if thorough { 6000 } else { 700 };
@@ -789,6 +1042,10 @@ fn generate(seed: u64, tier: Tier, em: &mut Emitter) {
 }
 
 fn main() {
+    if std::env::args().nth(1).as_deref() == Some("--child") {
+        child_main();
+        return;
+    }
     let _ = std::fs::create_dir_all(scratch_root());
     drive(&generate, &run);
     let _ = std::fs::remove_dir_all(scratch_root());
